@@ -2178,8 +2178,8 @@ example : (relateSpec (.multiLineString [[⟨0, 0⟩, ⟨2, 0⟩]]) (.multiLineS
   (relateSpec_linear_boundary_cells _ _ _ _ (Or.inl rfl)).1.2 ⟨⟨2, 0⟩, by decide +kernel, by decide +kernel⟩
 
 /-- [T] **Line × Line, the cells BB, IB, BI, BE, EB** (non-degenerate segments; with II — `relateSpec_line_line_ii`,
-`relateSpec_line_line_ii_one` — and `EE = 2` seven of the nine cells; IE / EI need "a segment not covered by the other
-has an elementary sub-segment off it"): BB = 0 iff the segments share an end point; IB = 0 iff an end point of the
+`relateSpec_line_line_ii_one` — and `EE = 2` seven of the nine cells; IE / EI: `relateSpec_line_line_exterior_cells`
+below): BB = 0 iff the segments share an end point; IB = 0 iff an end point of the
 second lies in the open first segment (BI: transposed); BE = 0 iff an end point of the first is off the second (EB:
 transposed); `F` otherwise. -/
 theorem relateSpec_line_line_boundary_cells (a b c d : Pt) (hab : a ≠ b) (hcd : c ≠ d) :
@@ -2211,6 +2211,36 @@ theorem relateSpec_line_line_boundary_cells (a b c d : Pt) (hab : a ≠ b) (hcd 
 example : (relateSpec (.line ⟨0, 0⟩ ⟨2, 0⟩) (.line ⟨1, 0⟩ ⟨1, 2⟩)).ib = .zero :=
   (relateSpec_line_line_boundary_cells _ _ _ _ (by simp) (by simp)).2.1.1.2
     (Or.inl ⟨⟨1/2, by norm_num, by norm_num, by norm_num, by norm_num⟩, by simp, by simp⟩)
+
+/-- [T] **Line × Line, the cells IE, EI, EE — all nine cells of the specification for two non-degenerate segments are
+now characterised by point-set conditions** (`cell_complete` for Line × Line): IE = 1 iff some point of the open first
+segment is off the second (never 0: such a point is not a vertex of the arrangement — the vertices are the four end
+points and the single intersection point — so the midpoint of its elementary sub-segment has the same two locations,
+C02X `locate_const`), `F` otherwise; EI: transposed; EE = 2. -/
+theorem relateSpec_line_line_exterior_cells (a b c d : Pt) (hab : a ≠ b) (hcd : c ≠ d) :
+    (((relateSpec (.line a b) (.line c d)).ie = .one ↔ ∃ x, Spec.SegInt x a b ∧ ¬ Geo.Proofs.Kernel.SegMem x c d) ∧
+      ((relateSpec (.line a b) (.line c d)).ie = .empty ↔ ¬ ∃ x, Spec.SegInt x a b ∧ ¬ Geo.Proofs.Kernel.SegMem x c d)) ∧
+    (((relateSpec (.line a b) (.line c d)).ei = .one ↔ ∃ x, Spec.SegInt x c d ∧ ¬ Geo.Proofs.Kernel.SegMem x a b) ∧
+      ((relateSpec (.line a b) (.line c d)).ei = .empty ↔ ¬ ∃ x, Spec.SegInt x c d ∧ ¬ Geo.Proofs.Kernel.SegMem x a b)) ∧
+    (relateSpec (.line a b) (.line c d)).ee = .two := by
+  have ht : relateSpec (.line a b) (.line c d) = (relateSpec (.line c d) (.line a b)).transpose :=
+    relateSpec_transpose (.line c d) (.line a b)
+  refine ⟨line_line_ie a b c d hab, ?_, ?_⟩
+  · have h1 : ∀ m : IM, m.transpose.ei = m.ie := fun _ => rfl
+    rw [ht, h1]
+    exact line_line_ie c d a b hcd
+  · have : (relateSpec (.line a b) (.line c d)).get .outside .outside = .two := by
+      unfold relateSpec
+      rw [Spec.relateParts_eq, get_set, if_pos ⟨rfl, rfl⟩]
+    exact this
+
+/-- a segment sticking out of another: IE = 1; a sub-segment: IE = F -/
+example : (relateSpec (.line ⟨0, 0⟩ ⟨4, 0⟩) (.line ⟨1, 0⟩ ⟨2, 0⟩)).ie = .one :=
+  (relateSpec_line_line_exterior_cells _ _ _ _ (by simp) (by simp)).1.1.2
+    ⟨⟨3, 0⟩, ⟨⟨3/4, by norm_num, by norm_num, by norm_num, by norm_num⟩, by simp, by simp⟩, by
+      rintro ⟨t, h0, h1, hx, _⟩
+      simp at hx
+      linarith⟩
 
 end Impl3
 
